@@ -2,6 +2,10 @@ package h
 
 import (
 	sdk "github.com/cosmos/cosmos-sdk/types"
+	tmbytes "github.com/tendermint/tendermint/libs/bytes"
+
+	service "github.com/irismod/service"
+	"github.com/irismod/service/types"
 
 	"vh/vf"
 )
@@ -28,4 +32,34 @@ func C20_ParseDecimalPrice() {
 	text := vf.PricingTextDec("m.pricing", 0, 0)
 	panicked := vf.Try(func() { _, _ = k.ParsePricing(ctx, text) })
 	chk("C20", !panicked, "parsing-a-schema-valid-decimal-price-no-panic")
+}
+
+// C20_CallWithoutTxHash: the request context's id is built from the transaction hash and the message index that the
+// host application is expected to put into the context. The repository's own application never does. A
+// call-service message delivered there must be refused, not make the handler panic.
+func C20_CallWithoutTxHash() {
+	focus = "C20"
+	k, ctx := vf.Env()
+	ctx, _, _ = Block(ctx)
+	Define(k, ctx, Svc)
+	consumer, prov := vf.Addr("consumer", 20), vf.Addr("prov", 20)
+	switch vf.Choice("host", 3) {
+	case 1: // only the hash
+		ctx = vf.WithTxHashOnly(ctx, vf.Bytes("txhash", 32))
+	case 2: // both
+		ctx = vf.WithTx(ctx, vf.Bytes("txhash", 32), vf.Int64("msgIndex"))
+	}
+	capAmt := vf.Amount("cap")
+	msg := types.NewMsgCallService(Svc, []sdk.AccAddress{prov}, consumer, InputOK, coins(capAmt), vf.Int64("timeout"), false, false, 0, 0)
+	vf.Assume(msg.ValidateBasic() == nil)
+	n0 := 0
+	k.IterateRequestContexts(ctx, func(tmbytes.HexBytes, types.RequestContext) bool { n0++; return false })
+	_, err, panicked := vf.Deliver(ctx, service.NewHandler(k), msg)
+	chk("C20", !panicked, "call-without-transaction-hash-no-panic")
+	vf.Assume(!panicked)
+	n1 := 0
+	k.IterateRequestContexts(ctx, func(tmbytes.HexBytes, types.RequestContext) bool { n1++; return false })
+	if vf.Choice("host", 3) != 2 {
+		chk("C20 C18", vf.And(err != nil, n1 == n0), "call-without-transaction-hash-refused")
+	}
 }
